@@ -49,6 +49,10 @@ def run(ctx, rep):
     rep.rule("C18.mirror", "SwapChildren / unswap / rtl_post_order_iter mirror exactly the binary nodes")
     rep.rule("C18.convert", "Node::convert looks children up by the reported indices")
 
+    def undecided(rule, what):
+        rep.note("%s not decided on this tree: %s (shape not recognised; no verdict)" % (rule, what))
+        rep.count("undecided_shapes")
+
     f = F.fns.get(NEXT)
     if f is None:
         rep.anchor("C18.iter", NEXT)
@@ -121,10 +125,10 @@ def run(ctx, rep):
         patch1 = {t: next(iter(s)) for t, s in patch.items() if len(s) == 1}
         rep.count("back_patch_tags", len(patch1))
         if len(patch1) < 3:
-            rep.anchor("C18.iter", "second-visit arms that patch the parent (found %s)" % sorted(patch1))
+            undecided("C18.iter", "second-visit arms that patch the parent (found %s)" % sorted(patch1))
         # ---- first visit
         n1 = 0
-        for E, back in trips:
+        for E, back in (trips if len(patch1) >= 3 else []):
             if any(ev[0] == "call" and ev[2].endswith("::record") for ev in E.events):
                 continue
             st = {}
@@ -189,8 +193,9 @@ def run(ctx, rep):
                 rep.violation("C18.iter", key, "first visit with (left, right) = (%s, %s): %s" % (st.get("left"), st.get("right", "*"), "; ".join(sorted(set(bad)))), f.where())
             else:
                 rep.ok("C18.iter", key, kids)
-        rep.floor("C18.iter(first-visit trips)", n1, 7)
-        rep.floor("C18.iter(second-visit trips)", n2, 8)
+        if len(patch1) >= 3:
+            rep.floor("C18.iter(first-visit trips)", n1, 7)
+            rep.floor("C18.iter(second-visit trips)", n2, 8)
 
     # ------------------------------------------------------------------ trackers
     recs = [g for p, g in F.fns.items() if "simplicity::dag::SharingTracker<" in p and p.endswith(">::record")]
@@ -226,8 +231,17 @@ def run(ctx, rep):
                 if ev[0] == "call" and ev[2].endswith("::insert") and show(ev[3][-1]) == E.pnames.get(3, "index"):
                     okv = True
         keyfn = lambda fn: sorted({cs.callee for cs in fn.calls() if cs.callee.startswith(("simplicity::", "<simplicity::")) and "Clone" not in cs.callee})
-        if not ins or not okv:
-            rep.violation("C18.tracker", who + ":value", "%s::record does not store the index it was given" % who, g.where())
+        constv = False
+        for E in (PathEval(g, p) for p in pv.paths(g)):
+            for ev in E.events:
+                if ev[0] == "call" and ev[2].endswith("::insert") and ev[3] and ev[3][-1][0] == "int":
+                    constv = True
+                if ev[0] == "call" and ev[2].endswith("::insert") and ev[3] and ev[3][-1][0] == "param" and not ev[3][-1][2] and ev[3][-1][1] != E.pnames.get(1):
+                    okv = okv or (len([q for q in E.pnames.values()]) >= 3 and ev[3][-1][1] == E.pnames.get(3))
+        if constv:
+            rep.violation("C18.tracker", who + ":value", "%s::record stores a constant, not the index it was given" % who, g.where())
+        elif not ins or not okv:
+            undecided("C18.tracker", "%s::record: the stored value could not be traced to the index parameter" % who)
         elif sb is None or keyfn(sb) != keyfn(g):
             def deep(fn):
                 out = set(keyfn(fn))
